@@ -21,14 +21,21 @@ Pl(n) == [k |-> "some", n |-> n]
 Dns(l) == [v |-> "dns", labels |-> l, b |-> <<>>, p |-> 0]
 Ip(b, p) == [v |-> "ip", labels |-> <<>>, b |-> b, p |-> p]
 (* frac: the validity dates are given with a sub-second part and a non-UTC offset (the instant of the day boundary stays) *)
-Ca(pl) == [isCa |-> [k |-> "Ca", pl |-> pl], nbDay |-> Day0, naDay |-> DayEnd, ku |-> <<5, 6>>, eku |-> <<>>, nc |-> NoNc, names |-> <<>>, frac |-> FALSE]
+Ca(pl) == [isCa |-> [k |-> "Ca", pl |-> pl], nbDay |-> Day0, naDay |-> DayEnd, ku |-> <<5, 6>>, eku |-> <<>>, nc |-> NoNc, names |-> <<>>, frac |-> FALSE, kid |-> "sha256"]
 LeafRec == [isCa |-> [k |-> "NoCa", pl |-> NoPl], nbDay |-> Day0, naDay |-> DayEnd, ku |-> <<0>>, eku |-> <<>>, nc |-> NoNc,
-            names |-> <<Dns(<<"www", "example", "test">>)>>, frac |-> FALSE]
+            names |-> <<Dns(<<"www", "example", "test">>)>>, frac |-> FALSE, kid |-> "sha256"]
 Chain(nInter) == <<Ca(NoPl)>> \o [i \in 1..nInter |-> Ca(NoPl)] \o <<LeafRec>>
 
-Case(grp, pos, chain, day, purpose) == [grp |-> grp, pos |-> pos, chain |-> chain, day |-> day, purpose |-> purpose]
+(* issue: how the certificates below the root are issued - "direct" (CertificateParams::signed_by) or "csr" (through a parsed request) *)
+Case(grp, pos, chain, day, purpose) == [grp |-> grp, pos |-> pos, chain |-> chain, day |-> day, purpose |-> purpose, issue |-> "direct"]
 
 OkCases == { Case("ok", 0, Chain(n), Now, p) : n \in 0..2, p \in {"server", "client"} }
+
+(* fully satisfied chains whose issuers derive their key identifiers in every way, issued either way: how an identifier was made *)
+(* and which call issued the certificate never decide a verdict (a validator that matches AKI to SKI must still find the issuer) *)
+KidCases == { [Case("ok", pos - 1, [Chain(n) EXCEPT ![pos].kid = k], Now, "server") EXCEPT !.issue = v] :
+                n \in 0..2, pos \in 1..3, k \in {"sha384", "sha512", "pre"}, v \in {"direct", "csr"} }
+            \cup { [Case("ok", 0, Chain(n), Now, p) EXCEPT !.issue = "csr"] : n \in 0..2, p \in {"server", "client"} }
 
 IsCaVariants == { [k |-> "NoCa", pl |-> NoPl], [k |-> "ExplicitNoCa", pl |-> NoPl], [k |-> "Ca", pl |-> NoPl], [k |-> "Ca", pl |-> Pl(3)] }
 CaFlagCases == { Case("caflag", pos - 1, [Chain(n) EXCEPT ![pos].isCa = v], Now, "server") :
@@ -91,7 +98,7 @@ KuSets == { <<>>, <<5>>, <<6>>, <<0, 5>>, <<0>>, <<0, 6>>, <<0, 6, 6>>, <<5, 6, 
 CertSignCases == { Case("certsign", pos - 1, [Chain(n) EXCEPT ![pos].ku = k], Now, "server") : n \in 0..2, pos \in 1..3, k \in KuSets }
 
 Wf(k) == k.pos + 1 <= Len(k.chain) /\ (k.grp \in {"caflag", "pathlen", "certsign", "nc"} => k.pos + 1 < Len(k.chain))
-Cases == { k \in OkCases \cup CaFlagCases \cup CaFlagBareCases \cup FarTimeCases \cup PathLenCases \cup TimeCases \cup NcDnsCases \cup NcIp4Cases \cup NcIp6Cases \cup NcMixCases \cup NcMappedCases \cup NcTwoIpCases
+Cases == { k \in OkCases \cup KidCases \cup CaFlagCases \cup CaFlagBareCases \cup FarTimeCases \cup PathLenCases \cup TimeCases \cup NcDnsCases \cup NcIp4Cases \cup NcIp6Cases \cup NcMixCases \cup NcMappedCases \cup NcTwoIpCases
                   \cup EkuCases \cup CertSignCases : Wf(k) }
 
 Init == c \in Cases /\ phase = "built" /\ verdict = FALSE
